@@ -315,6 +315,56 @@ pub fn run(args: &[Sx]) -> Sx {
                 Some(Err(_)) => err(nil()),
             }
         }
+        (10, 4) => {
+            use easy_ml::differentiation::{Record, RecordMatrix};
+            use easy_ml::differentiation::iterators::InvalidRecordIteratorError as E;
+            let (Some(rows), Some(cols), Some(n)) = (args[1].usize(), args[2].usize(), args[3].usize()) else { return bad_case() };
+            if n > 1 << 12 {
+                return bad_case();
+            }
+            let records = || (0..n).map(|i| Record::constant(i as f64));
+            let enc = |r: Result<RecordMatrix<'static, f64, Matrix<(f64, usize)>>, E<'static, f64, 2>>| match r {
+                Ok(m) => { use easy_ml::matrices::views::MatrixRef; l(vec![z(0), l(vec![z(m.view_rows()), z(m.view_columns())])]) }
+                Err(E::Empty) => l(vec![z(1), l(vec![z(0)])]),
+                Err(E::Shape { requested, length }) => {
+                    let s = requested.shape();
+                    l(vec![z(1), l(vec![z(1), z(s[0].1), z(s[1].1), z(length)])])
+                }
+                Err(E::InconsistentHistory(_)) => l(vec![z(1), l(vec![z(2)])]),
+            };
+            let one = match guarded(|| RecordMatrix::from_iter((rows, cols), records())) {
+                None => return panicked(),
+                Some(r) => enc(r),
+            };
+            let two = match guarded(|| RecordMatrix::from_iters::<_, 2>((rows, cols), records().map(|r| [r.clone(), r]))) {
+                None => return panicked(),
+                Some([a, b]) => (enc(a), enc(b)),
+            };
+            if two.0 != one || two.1 != one {
+                return inconsistent(1630);
+            }
+            one
+        }
+        (11, 3) => {
+            use easy_ml::differentiation::{Record, RecordTensor};
+            use easy_ml::differentiation::iterators::InvalidRecordIteratorError as E;
+            let (Some(shape), Some(n)) = (args[1].pairs_usize(), args[2].usize()) else { return bad_case() };
+            if n > 1 << 12 {
+                return bad_case();
+            }
+            fn go<const D: usize>(shape: &[(usize, usize)], n: usize) -> Sx {
+                let shape: [(&'static str, usize); D] = shape_arr(shape);
+                let records = (0..n).map(|i| Record::constant(i as f64));
+                match guarded(|| RecordTensor::from_iter(shape, records)) {
+                    None => panicked(),
+                    Some(Ok(t)) => l(vec![z(0), shape_sx(&t.view_shape())]),
+                    Some(Err(E::Empty)) => l(vec![z(1), l(vec![z(0)])]),
+                    Some(Err(E::Shape { requested, length })) => l(vec![z(1), l(vec![z(1), shape_sx(&requested.shape()), z(length)])]),
+                    Some(Err(E::InconsistentHistory(_))) => l(vec![z(1), l(vec![z(2)])]),
+                }
+            }
+            crate::with_d!(shape.len(), go(&shape, n))
+        }
         (9, 4) => {
             let (Some(rows), Some(cols), Some(probes)) = (args[1].usize(), args[2].usize(), pairs(&args[3])) else {
                 return bad_case();
